@@ -17,6 +17,8 @@ pub mod cases_gf255;
 #[cfg(not(kani))]
 pub mod cases_recode;
 #[cfg(not(kani))]
+pub mod cases_fields;
+#[cfg(not(kani))]
 pub mod cases_hash;
 
 #[cfg(kani)]
@@ -38,6 +40,7 @@ pub fn all_cases() -> Vec<Case> {
     let mut v = Vec::new();
     cases_gf255::register(&mut v);
     cases_recode::register(&mut v);
+    cases_fields::register(&mut v);
     cases_hash::register(&mut v);
     v
 }
